@@ -2,7 +2,7 @@
       the steps of the Reader. *)
 From Coq Require Import ZArith List String Bool Lia Permutation.
 From Texel Require Import Pipe.Model Pipe.ProofsBase Pipe.ProofsInv Pipe.ProofsLive Pipe.Skeleton Pipe.SkeletonSem Pipe.SkeletonSim Pipe.ProofsSkeleton
-  Pipe.ConversePc Pipe.ConversePcSn Pipe.ProofsConversePc Pipe.ProofsConversePcSn Pipe.Converse Pipe.ProofsConverse1.
+  Pipe.ConversePc Pipe.ConversePcSn Pipe.ProofsConversePc Pipe.ProofsConversePcSn Pipe.Converse Pipe.ConverseRank Pipe.ProofsConverse1.
 Import ListNotations.
 Open Scope string_scope.
 Open Scope list_scope.
@@ -89,6 +89,47 @@ Proof.
   - now rewrite (kinds_upd _ _ _ _ Hn Hk).
 Qed.
 
+(** ** Ranks and classified steps *)
+
+Lemma rank_sum_upd_eq : forall ts roles t ro ro', nth_error roles t = Some ro ->
+  (rank_sum ts (upd_nth t ro' roles) + rank_role ts ro = rank_sum ts roles + rank_role ts ro')%nat.
+Proof.
+  unfold rank_sum. induction roles as [|r rs IH]; intros [|t] ro ro' Hn; cbn [nth_error upd_nth map] in *; try discriminate.
+  - inversion Hn; subst. rewrite !list_sum_cons. lia.
+  - specialize (IH _ _ ro' Hn). rewrite !list_sum_cons. lia.
+Qed.
+
+Lemma rank_sum_upd : forall ts roles t ro ro', nth_error roles t = Some ro ->
+  (rank_role ts ro' < rank_role ts ro)%nat -> (rank_sum ts (upd_nth t ro' roles) < rank_sum ts roles)%nat.
+Proof. intros ts roles t ro ro' Hn H. pose proof (rank_sum_upd_eq ts roles t ro ro' Hn). lia. Qed.
+
+Lemma rank_sum_app : forall ts roles ro, rank_sum ts (roles ++ [ro]) = (rank_sum ts roles + rank_role ts ro)%nat.
+Proof. intros. unfold rank_sum. rewrite map_app, list_sum_app. cbn. lia. Qed.
+
+Lemma rank_sum_go : forall ts roles t ro ro' new, nth_error roles t = Some ro ->
+  (rank_role ts ro' + rank_role ts new < rank_role ts ro)%nat ->
+  (rank_sum ts (upd_nth t ro' roles ++ [new]) < rank_sum ts roles)%nat.
+Proof.
+  intros ts roles t ro ro' new Hn H. rewrite rank_sum_app. pose proof (rank_sum_upd_eq ts roles t ro ro' Hn). lia.
+Qed.
+
+Lemma rstep_silent : forall cfg roles roles' chans wgs s,
+  coh cfg roles' chans wgs s ->
+  (rank_sum (c_targets cfg) roles' < rank_sum (c_targets cfg) roles)%nat \/ pure_move roles roles' ->
+  rstep cfg roles s (MkG (map (th_of (c_targets cfg)) roles') chans wgs None) s.
+Proof. intros. left. split; [reflexivity|]. exists roles'. cbn. auto. Qed.
+
+Lemma rstep_label : forall cfg roles s g' s' l, step cfg s l = Some s' -> skel_rel cfg g' s' -> rstep cfg roles s g' s'.
+Proof. intros. right. split; [eauto | assumption]. Qed.
+
+Lemma rstep_mstep : forall cfg roles s g' s', s_panic s = None -> rstep cfg roles s g' s' ->
+  mstep cfg s s' /\ skel_rel cfg g' s'.
+Proof.
+  intros cfg roles s g' s' Hp [(-> & roles' & -> & Hc & _)|[(l & Hl) Hr]].
+  - split; [now left|]. now apply skel_rel_intro.
+  - split; [right; eauto | exact Hr].
+Qed.
+
 (** ** Preliminaries shared by the steps of every role *)
 
 Lemma main_st_not_init : forall pm, main_st pm <> MInit.
@@ -120,7 +161,7 @@ Lemma step_read : forall cfg roles chans wgs s t p c g' ev,
   coh cfg roles chans wgs s -> s_panic s = None -> nth_error roles t = Some (RoRead p) ->
   gstep P (MkG (map (th_of (c_targets cfg)) roles) chans wgs None) (ALocal t c) = Some (g', ev) ->
   choice_ok s (th_rd p) c ->
-  exists s', mstep cfg s s' /\ skel_rel cfg g' s'.
+  exists s', rstep cfg roles s g' s'.
 Proof.
   intros cfg roles chans wgs s t p c g' ev Hcoh Hpan Hn Hg Hch.
   destruct (coh_inv_late _ _ _ _ _ _ _ Hcoh Hn) as (pm & Hm & Hnd & He & Hmain & Hlate); [discriminate|].
@@ -134,35 +175,35 @@ Proof.
   2: { exfalso. eapply (no_local_step (c_targets cfg) roles chans wgs t c (RoRead p)); eauto. }
   destruct Hspec as [-> Hpost].
   pose proof (local_effect (c_targets cfg) roles chans wgs t c (RoRead p) q th' 0 (fun b => RoRead (k b)) g' ev Hn Et Hpost) as Heff.
-  assert (Htau : forall p', rd_rel p' (s_rd s) ->
-            skel_rel cfg (MkG (map (th_of (c_targets cfg)) (upd_nth t (RoRead p') roles)) chans wgs None) s).
-  { intros p' Hp'. apply skel_rel_intro; [exact Hpan|].
+  assert (Htau : forall p', (rank_rd p' < rank_rd p)%nat -> rd_rel p' (s_rd s) ->
+            rstep cfg roles s (MkG (map (th_of (c_targets cfg)) (upd_nth t (RoRead p') roles)) chans wgs None) s).
+  { intros p' Hrk Hp'. apply rstep_silent; [|left; eapply rank_sum_upd; [exact Hn | exact Hrk]].
     eapply coh_upd; eauto; [discriminate|].
     eapply late_rd_upd; eauto. rewrite Hchans; reflexivity. }
   destruct p; cbn [next_rd] in En.
-  - (* D0 *) inversion En; subst q k. specialize (Heff I Hg). cbn in Heff. subst g'. exists s. split; [now left|]. apply Htau. exact Hrel.
-  - (* D1 *) inversion En; subst q k. specialize (Heff I Hg). cbn in Heff. subst g'. exists s. split; [now left|]. apply Htau. exact Hrel.
+  - (* D0 *) inversion En; subst q k. specialize (Heff I Hg). cbn in Heff. subst g'. exists s. apply Htau; [cbn; lia | exact Hrel].
+  - (* D1 *) inversion En; subst q k. specialize (Heff I Hg). cbn in Heff. subst g'. exists s. apply Htau; [cbn; lia | exact Hrel].
   - (* DH *)
     unfold choice_ok in Hch. cbn in Hch. destruct Hrel as [rest Hrest]. rewrite Hrest in Hch.
     destruct c as [| | |[z|]|]; try discriminate; inversion En; subst q k; specialize (Heff I Hg); cbn in Heff; subst g';
-      exists s; (split; [now left|]); apply Htau; cbn.
+      exists s; (apply Htau; [cbn; lia|]); cbn.
     + destruct rest as [|f r]; [discriminate | eauto].
     + destruct rest as [|f r]; [exact Hrest | congruence].
   - (* D2 *) inversion En; subst q k. specialize (Heff I Hg). cbn in Heff. destruct Heff as [Hc _].
     destruct Hrel as (f & r & Hr). rewrite Hchans, Hr in Hc. discriminate.
-  - (* D3 *) inversion En; subst q k. specialize (Heff I Hg). cbn in Heff. subst g'. exists s. split; [now left|]. apply Htau. exact Hrel.
+  - (* D3 *) inversion En; subst q k. specialize (Heff I Hg). cbn in Heff. subst g'. exists s. apply Htau; [cbn; lia | exact Hrel].
   - (* D4 *) inversion En; subst q k. specialize (Heff I Hg). cbn in Heff. cbn in Hrel.
     destruct Heff as [[Hc ->]|[Hc _]]; [|rewrite Hchans, Hrel in Hc; discriminate].
-    exists (set_rd s RdClosed). split.
-    + right. exists LReadClose. rewrite (step_late _ _ _ pm Hpan Hmain). cbn. now rewrite Hrel.
+    exists (set_rd s RdClosed). right. split.
+    + exists LReadClose. rewrite (step_late _ _ _ pm Hpan Hmain). cbn. now rewrite Hrel.
     + apply skel_rel_intro; [exact Hpan|].
       eapply coh_upd; eauto; [discriminate|].
       eapply late_rd_upd; eauto; try reflexivity. cbn. rewrite Hchans; reflexivity.
-  - (* D5 *) inversion En; subst q k. specialize (Heff I Hg). cbn in Heff. subst g'. exists s. split; [now left|]. apply Htau. exact Hrel.
-  - (* D6 *) inversion En; subst q k. specialize (Heff I Hg). cbn in Heff. subst g'. exists s. split; [now left|]. apply Htau. exact Hrel.
+  - (* D5 *) inversion En; subst q k. specialize (Heff I Hg). cbn in Heff. subst g'. exists s. apply Htau; [cbn; lia | exact Hrel].
+  - (* D6 *) inversion En; subst q k. specialize (Heff I Hg). cbn in Heff. subst g'. exists s. apply Htau; [cbn; lia | exact Hrel].
   - (* D7 *) inversion En; subst q k. specialize (Heff I Hg). cbn in Heff. subst g'. cbn in Hrel.
-    exists (set_rd s RdExit). split.
-    + right. exists LReadExit. rewrite (step_late _ _ _ pm Hpan Hmain). cbn. now rewrite Hrel.
+    exists (set_rd s RdExit). right. split.
+    + exists LReadExit. rewrite (step_late _ _ _ pm Hpan Hmain). cbn. now rewrite Hrel.
     + apply skel_rel_intro; [exact Hpan|].
       eapply coh_upd; eauto; [discriminate|].
       eapply late_rd_upd; eauto; try reflexivity. cbn. rewrite Hrel in *. rewrite Hchans; reflexivity.
